@@ -65,6 +65,8 @@ static unsigned char g_wl_fd[MAXFD];   /* 1 = workload file, 2 = created/truncat
 static long g_count[OP_N];
 static long g_seq;
 static long g_threads;
+static long g_io_tid;          /* thread that performed the first operation on a workload file */
+static int g_io_multi;         /* set once a second thread does */
 
 static const struct { const char *name; int val; } ERRNOS[] = {
     {"EACCES", EACCES}, {"ENOENT", ENOENT}, {"ENOSPC", ENOSPC}, {"EMFILE", EMFILE}, {"EINTR", EINTR},
@@ -150,6 +152,18 @@ static void init(void) {
 
 __attribute__((constructor)) static void ctor(void) { init(); }
 
+/* operation indices are only meaningful while one thread does all the workload I/O; note when
+ * that stops being true so that the harness neither trusts the order of the log nor aims faults
+ * by index in such a step */
+static void note_io_thread(void) {
+    long tid = syscall(SYS_gettid);
+    if (!g_io_tid) g_io_tid = tid;
+    else if (tid != g_io_tid && !g_io_multi) {
+        g_io_multi = 1;
+        raw_log("%ld multi-thread-io\n", g_seq++);
+    }
+}
+
 static struct fault *fault_for(int op, long n) {
     for (int i = 0; i < g_nfaults; i++)
         if (g_faults[i].op == op && g_faults[i].n == n && !g_faults[i].fired) return &g_faults[i];
@@ -166,6 +180,7 @@ static int do_open(int dirfd, const char *path, int flags, mode_t mode) {
     init();
     if (!is_workload_path(path))
         return (int)syscall(SYS_openat, dirfd, path, flags, mode);
+    note_io_thread();
     long n = g_count[OP_OPEN]++;
     long seq = g_seq++;
     const char *rel = path + g_prefix_len;
@@ -236,6 +251,7 @@ ssize_t write(int fd, const void *buf, size_t count) {
         long r = syscall(SYS_write, fd, buf, count);
         return r;
     }
+    note_io_thread();
     long n = g_count[OP_WRITE]++;
     long seq = g_seq++;
     if (fd >= 0 && fd < MAXFD && g_sticky[fd]) {
@@ -284,6 +300,7 @@ ssize_t write(int fd, const void *buf, size_t count) {
 ssize_t read(int fd, void *buf, size_t count) {
     init();
     if (!is_workload_fd_r(fd)) return syscall(SYS_read, fd, buf, count);
+    note_io_thread();
     long n = g_count[OP_READ]++;
     long seq = g_seq++;
     struct fault *f = fault_for(OP_READ, n);
@@ -336,6 +353,7 @@ ssize_t writev(int fd, const struct iovec *iov, int iovcnt) {
  * are fault / crash points like any other call on a workload file. */
 
 static int meta_gate(const char *what, const char *a, const char *b, int fd) {
+    note_io_thread();
     long n = g_count[OP_META]++;
     long seq = g_seq++;
     struct fault *f = fault_for(OP_META, n);
